@@ -3,9 +3,13 @@
 package taskctl
 
 import (
+	"bytes"
 	"context"
 	"fmt"
+	"os"
 	"os/exec"
+	"strconv"
+	"strings"
 	"sync"
 	"syscall"
 	"time"
@@ -108,9 +112,43 @@ func createExecHandler(killTimeout time.Duration) interp.ExecHandlerFunc {
 	}
 }
 
-// processGroupAlive reports whether a process of the given process group still exists
+// processGroupAlive reports whether a process of the given process group is still running. Zombies (killed or exited
+// processes nobody has waited for yet) are found by kill(2) but are not running anymore, so where the process table
+// can be read (Linux) they are not counted.
 func processGroupAlive(pgid int) bool {
-	return syscall.Kill(-pgid, 0) != syscall.ESRCH
+	if syscall.Kill(-pgid, 0) == syscall.ESRCH {
+		return false
+	}
+	entries, err := os.ReadDir("/proc")
+	if err != nil {
+		return true
+	}
+	inspected := false
+	for _, entry := range entries {
+		name := entry.Name()
+		if name[0] < '0' || name[0] > '9' {
+			continue
+		}
+		stat, err := os.ReadFile("/proc/" + name + "/stat")
+		if err != nil {
+			continue
+		}
+		// pid (comm) state ppid pgrp ...: comm may contain spaces and parentheses, so split after the last ')'
+		i := bytes.LastIndexByte(stat, ')')
+		if i < 0 {
+			continue
+		}
+		fields := strings.Fields(string(stat[i+1:]))
+		if len(fields) < 3 {
+			continue
+		}
+		inspected = true
+		if fields[2] == strconv.Itoa(pgid) && fields[0] != "Z" && fields[0] != "X" {
+			return true
+		}
+	}
+	// without a readable process table the answer of kill(2) stands
+	return !inspected
 }
 
 // waitForProcessGroups waits until no process of the given groups is left. The groups have been sent an interrupt
